@@ -14,7 +14,12 @@ focus = ''
 if rnd:
     k = (ord(rnd[0]) - ord('a')) % len(mechs)
     m = mechs[k]
-    focus = '\n  Focus: put your change in or around this mechanism of the implementation: %s (%s). Prefer a fault in state that persists between operations (a cache, a cursor, a flag, a saved/restored value, an index that must stay in step with another) over a local arithmetic slip.' % (m.get('name'), m.get('where'))
+    if rnd[0] >= 'd':
+        k = (ord(rnd[0]) - ord('a') + 1) % len(mechs)
+        m = mechs[k]
+        focus = '\n  Focus: put your change in or around this mechanism of the implementation: %s (%s). Prefer a fault that only shows through the INTERACTION of this mechanism with something else the interpreter does (error trapping and RESUME, garbage collection of strings, a second open file or device, a screen mode or width change, leftover state from a previous statement or a previous RUN, direct mode versus program mode, an unusual but legal spelling of the same statement) - something that exercising the mechanism alone from a fresh start would not reveal.' % (m.get('name'), m.get('where'))
+    else:
+      focus = '\n  Focus: put your change in or around this mechanism of the implementation: %s (%s). Prefer a fault in state that persists between operations (a cache, a cursor, a flag, a saved/restored value, an index that must stay in step with another) over a local arithmetic slip.' % (m.get('name'), m.get('where'))
 
 print("""You are a software engineer helping to evaluate a verification tool. You have your own scratch git worktree of the open-source project robhagemans/pcbasic (a pure-Python GW-BASIC interpreter) at %(wt)s (it is a worktree of a larger repository; work ONLY inside %(wt)s and %(out)s; do not read or touch /repo or /verif or any other directory under /tmp). Run Python as `cd %(wt)s && /venv/bin/python ...` (pcbasic is imported from the worktree when you are in its root; the machine is offline).
 
